@@ -143,6 +143,13 @@ pub fn check(c: &Case) -> CheckResult {
     let partial = region > 0 && (region as i128) < full;
     o.nontrivial = region > 0 && ((x1, y1) != (0, 0) || partial);
     o.class_if(region > 0, "transfer-nonempty");
+    if nonempty_src {
+        let dx1 = (c.at[0] as i64 + (cx1 as i64 - x1 as i64)).max(0);
+        let dx2 = (c.at[0] as i64 + (cx2 as i64 - x1 as i64)).min(c.dw as i64);
+        let wdt = dx2 - dx1;
+        o.class_if(region > 0 && wdt >= 512 && (wdt & (wdt - 1)) == 0, "row-of-exactly-512-1024-2048-or-4096-pixels");
+        o.class_if(region > 0 && wdt > 2048, "row-longer-than-2048-pixels");
+    }
     o.class_if(region > 0 && (x1, y1) != (0, 0), "src-rect-origin-nonzero");
     o.class_if(partial, "partially-clipped");
     o.class_if(x2 < x1 || y2 < y1, "inverted-rect");
@@ -287,16 +294,46 @@ pub fn strategy() -> BoxedStrategy<Case> {
         .boxed()
 }
 
+
+/// long rows: blocks whose width after clipping is a power of two between 512 and 4096 or next to one (row-wise
+/// transfers done in pieces of a fixed size show their seams there), on surfaces 1..3 rows high
+pub fn wide_strategy() -> BoxedStrategy<Case> {
+    let fam = prop::sample::select(vec![511i32, 512, 513, 1023, 1024, 1025, 2047, 2048, 2049, 3000, 4095, 4096, 4097]);
+    (fam, 0i32..=40, 0i32..=40, 1i32..=3, 1i32..=3, 0u8..4)
+        .prop_flat_map(|(wd, es, ed, sh, dh, how)| {
+            // how: 0 block inside both surfaces; 1 src_rect wider than the source (clipped to its width wd);
+            // 2 block cut by the destination's right edge to wd columns; 3 whole surfaces of width wd
+            let (sw, dw) = match how {
+                1 => (wd, wd + ed),
+                2 => (wd + es, wd),
+                3 => (wd, wd),
+                _ => (wd + es, wd + ed),
+            };
+            (Just((wd, sw, sh, dw, dh, how)), 0..=(sw - wd), 0..=(dw - wd), pixels((sw * sh) as usize, 0), pixels((dw * dh) as usize, 0), 0u8..3, blend_any(), prop_oneof![Just(1.0f32), 0.0f32..=1.0], -1i32..=1, -1i32..=1)
+        })
+        .prop_map(|((wd, sw, sh, dw, dh, how), sx, dx, src, dst, kind, mode, alpha, y0, dy)| {
+            let (rect, at) = match how {
+                1 => ([-5, y0, sw + 7, sh], [dx - 5, dy]),
+                2 => ([sx, y0, sw, sh], [0, dy]),
+                3 => ([0, 0, sw, sh], [0, 0]),
+                _ => ([sx, y0, sx + wd, sh], [dx, dy]),
+            };
+            Case { sw, sh, dw, dh, src, dst, rect, at, kind, mode, alpha, xf: None, clip: None, layer: false, src_clip: None }
+        })
+        .boxed()
+}
+
 pub fn property(_ctx: &Ctx) -> Property {
     Property {
         id: "C15",
-        rule: "part grid: exhaustive enumeration of copy_surface over source and destination sizes (0..=2)^2 [thorough (0..=3)^2], src_rect corners in [-1,3]^4 [[-1,4]^4] (so empty and inverted rects occur), dst in [-2,3]^2 [[-2,4]^2], position-tagged pixels. part random: proptest over sizes 257..300 (one dimension in forty) and 0..40, rect/dst coordinates near, +-100 and +-10^6, copy/blend_surface(28 modes)/blend_surface_with_alpha with random premultiplied pixels, with a random transform, clip rect and open layer set (must be ignored). Oracle: block-transfer model (source pixel src_rect.min+(i,j) -> dst+(i,j), limited to src_rect within the source and to the destination). Non-trivial: transfer region non-empty and (src_rect.min != (0,0) or region partially clipped); distinct by (sizes, rect, dst, kind, mode).",
+        rule: "part grid: exhaustive enumeration of copy_surface over source and destination sizes (0..=2)^2 [thorough (0..=3)^2], src_rect corners in [-1,3]^4 [[-1,4]^4] (so empty and inverted rects occur), dst in [-2,3]^2 [[-2,4]^2], position-tagged pixels. part random: proptest over sizes 257..300 (one dimension in forty) and 0..40, rect/dst coordinates near, +-100 and +-10^6, copy/blend_surface(28 modes)/blend_surface_with_alpha with random premultiplied pixels, with a random transform, clip rect and open layer set (must be ignored). part wide: surfaces 1..3 rows high and 511..4137 px wide, blocks whose width after clipping is 512, 1024, 2048 or 4096 or next to one of them (inside both surfaces, clipped by the source, cut by the destination, whole surfaces). Oracle: block-transfer model (source pixel src_rect.min+(i,j) -> dst+(i,j), limited to src_rect within the source and to the destination). Non-trivial: transfer region non-empty and (src_rect.min != (0,0) or region partially clipped); distinct by (sizes, rect, dst, kind, mode).",
         assumptions: vec!["blend formulas are sw_composite's public per-pixel functions (blend::*, over_in)", "exhaustive applies to the 'grid' part only"],
         parts: vec![
             enum_part("grid", grid_size(Tier::Quick), grid_size(Tier::Thorough), decode, check),
             part("random", 200_000, 5_000_000, strategy, check),
+            part("wide", 1_500, 40_000, wide_strategy, check),
         ],
-        min_class_fraction: vec![("random", "src-rect-origin-nonzero", 0.25), ("random", "partially-clipped", 0.25), ("random", "transfer-nonempty", 0.4), ("random", "clip-and-transform-set-on-the-source", 0.1)],
+        min_class_fraction: vec![("random", "src-rect-origin-nonzero", 0.25), ("random", "partially-clipped", 0.25), ("random", "transfer-nonempty", 0.4), ("random", "clip-and-transform-set-on-the-source", 0.1), ("wide", "row-of-exactly-512-1024-2048-or-4096-pixels", 0.2)],
         panic_is_violation: true,
     }
 }
